@@ -277,6 +277,9 @@ fn search<R: Recorder>(s: &[u8], modes: u8, cap: usize, h: usize, tier: Tier, st
                     v += c40_nvals(s[j - 1], text);
                     let full = 2 * (v / 3);
                     let padded = 2 * ((v + 2) / 3);
+                    if base + full > cap {
+                        break; // longer runs only cost more
+                    }
                     match v % 3 {
                         0 => {
                             go!(j, base + full + 1, m, Form::Unlatch);
@@ -322,6 +325,9 @@ fn search<R: Recorder>(s: &[u8], modes: u8, cap: usize, h: usize, tier: Tier, st
                     j += 1;
                     if (j - i) % 3 == 0 {
                         let cwn = 2 * (j - i) / 3;
+                        if base + cwn > cap {
+                            break;
+                        }
                         go!(j, base + cwn + 1, Mode::X12, Form::Unlatch);
                         if j == n {
                             end_exact!(base + cwn, j, Mode::X12, Form::ExactEnd);
@@ -360,7 +366,7 @@ fn search<R: Recorder>(s: &[u8], modes: u8, cap: usize, h: usize, tier: Tier, st
                             go!(j, base + bytes, Mode::Edifact, Form::Unlatch);
                         }
                     }
-                    if j < n && edifact_ok(s[j]) {
+                    if j < n && edifact_ok(s[j]) && base + 3 * (r / 4) <= cap {
                         j += 1;
                     } else {
                         break;
@@ -374,6 +380,9 @@ fn search<R: Recorder>(s: &[u8], modes: u8, cap: usize, h: usize, tier: Tier, st
                         break;
                     }
                     let lenb = if l <= 249 { 1 } else { 2 };
+                    if base + 1 + l > cap {
+                        break;
+                    }
                     go!(j, base + lenb + l, Mode::Base256, Form::B256Len);
                     if j == n {
                         end_exact!(base + 1 + l, j, Mode::Base256, Form::B256ToEnd); // length 0
